@@ -1493,6 +1493,9 @@ def run_chi(ctx):
     for names in sets:
         chi_oracle(ctx, chi_fixture, names, list(itertools.permutations(range(len(names)))), sink, roundtrip=True)
         ctx.case(("chi-fixtures", tuple(names)))
+    # excluded point: a merge rejected by a LATER nuclide collision after _mergeMetadata has already rewritten chiFlags
+    chi_oracle(ctx, chi_fixture, ["fwAA", "fwAA"], [(0, 1)], sink, roundtrip=False)
+    chi_oracle(ctx, chi_fixture, ["fwAA", "gamAA", "fwAB", "fwAA"], [(0, 1, 2, 3), (1, 2, 0, 3)], sink, roundtrip=False)
     for _ in range(ctx.pick(25, 300)):
         ng = rng.choice([1, 2, 3])
         k = rng.choice([2, 2, 3])
